@@ -214,6 +214,13 @@ Proof.
 Qed.
 Print Assumptions C01_binary_agrees.
 
+(* ... and C02_bin_spec (Props/C02.v) proves that premise, so the statement holds outright *)
+Theorem C01_binary_agrees_closed :
+  forall R rO rI radd rmul rsub ropp, ring_theory rO rI radd rmul rsub ropp eq ->
+  binary_agrees_stmt R rO rI radd rmul (C02.entry_mat R rO).
+Proof. exact (C01_binary_agrees C02.C02_bin_spec). Qed.
+Print Assumptions C01_binary_agrees_closed.
+
 (* Non-vacuity: a concrete 4-qubit layer list over the Gaussian integers is well-formed, and the three models compute
    the same vector as the slot semantics on it. *)
 Local Open Scope Z_scope.
